@@ -5,6 +5,8 @@ package main
 
 import (
 	"fmt"
+	"github.com/thanos-community/promql-engine/api"
+	"github.com/thanos-community/promql-engine/engine"
 	"math"
 	"math/rand"
 	"runtime"
@@ -215,11 +217,11 @@ func oracleOpt(c *Case) CaseResult {
 		return res
 	}
 	sets := map[string][]logicalplan.Optimizer{
-		"default":   logicalplan.DefaultOptimizers,
-		"all":       logicalplan.AllOptimizers,
-		"sort":      {logicalplan.SortMatchers{}},
-		"merge":     {logicalplan.MergeSelectsOptimizer{}},
-		"propagate": {logicalplan.PropagateMatchersOptimizer{}},
+		"default":              logicalplan.DefaultOptimizers,
+		"all":                  logicalplan.AllOptimizers,
+		"sort":                 {logicalplan.SortMatchers{}},
+		"merge":                {logicalplan.MergeSelectsOptimizer{}},
+		"propagate":            {logicalplan.PropagateMatchersOptimizer{}},
 		"sort+propagate+merge": {logicalplan.SortMatchers{}, logicalplan.PropagateMatchersOptimizer{}, logicalplan.MergeSelectsOptimizer{}},
 		"merge+propagate":      {logicalplan.MergeSelectsOptimizer{}, logicalplan.PropagateMatchersOptimizer{}},
 	}
@@ -376,7 +378,15 @@ func oracleWF(c *Case) CaseResult {
 	runtime.GOMAXPROCS(c.Procs)
 	st := NewStore(c.Data)
 	cfg := c.Cfg()
-	q, err := makeQuery(newImpl(cfg), st, cfg, c.Query, c.Window)
+	var eng queryMaker = newImpl(cfg)
+	if c.ID%4 == 3 {
+		// the same well-formedness through a distributed engine over two partitions
+		half := len(c.Data) / 2
+		opts := engine.Opts{EngineOpts: promOpts(cfg)}
+		remotes := []api.RemoteEngine{engine.NewLocalEngine(opts, NewStore(c.Data[:half])), engine.NewLocalEngine(opts, NewStore(c.Data[half:]))}
+		eng = engine.NewDistributedEngine(opts, api.NewStaticEndpoints(remotes))
+	}
+	q, err := makeQuery(eng, st, cfg, c.Query, c.Window)
 	res := CaseResult{}
 	if err != nil {
 		res.Skipped = "rejected at creation"
